@@ -2,6 +2,10 @@
 from ..harnesses import HStory, HItem
 
 
+# stories without timing metadata in front of, between and behind stories with it
+MIXED_TIMING = {'A': 'nometa', 'AB': 'dur', 'C': 'none', 'D': 'both', 'E': 'nometa', 'F': 'text'}
+
+
 def story_item_parts(tier, mon, *, timing_variants=True, small=False):
     if tier == 'quick':
         parts = [
@@ -17,7 +21,7 @@ def story_item_parts(tier, mon, *, timing_variants=True, small=False):
         ]
         if timing_variants:
             parts.append({'label': 'stories-no-timing-metadata',
-                          'harness': HStory(pool=4, cap=3, max_list=2, layouts=('before',), timing='nometa'), 'monitors': mon})
+                          'harness': HStory(pool=4, cap=3, max_list=2, layouts=('before',), timing=MIXED_TIMING), 'monitors': mon})
     else:
         parts = [
             {'label': 'stories-pool6-cap5-L2', 'harness': HStory(pool=6, cap=5, max_list=2, layouts=('before', 'after', 'none')),
@@ -31,7 +35,7 @@ def story_item_parts(tier, mon, *, timing_variants=True, small=False):
         ]
         if timing_variants:
             parts.append({'label': 'stories-no-timing-metadata',
-                          'harness': HStory(pool=5, cap=4, max_list=2, layouts=('before', 'between'), timing='nometa'),
+                          'harness': HStory(pool=5, cap=4, max_list=2, layouts=('before', 'between'), timing=MIXED_TIMING),
                           'monitors': mon})
             parts.append({'label': 'items-no-timing-metadata',
                           'harness': HItem(pool=4, cap=3, max_list=2, patterns=('plain',), timing='nometa'), 'monitors': mon})
